@@ -90,6 +90,7 @@ fn real_build(sid: &[u8], base: &Base, init_out: &[u8], init_seed: &[u8]) -> (Ve
     let so = sender_output_from_keys(&arr);
     let mut seed: SenderOTSeed = bytemuck::pod_read_unaligned(init_seed);
     let mut out: PPRFOutput = bytemuck::pod_read_unaligned(init_out);
+    crate::util::note_case(format!("build_pprf sid={} sender_keys={}", hx(sid), hx(&base.sk_bytes())));
     build_pprf(sid, &so, &mut seed, &mut out);
     (bytemuck::bytes_of(&out).to_vec(), bytemuck::bytes_of(&seed).to_vec())
 }
@@ -99,6 +100,8 @@ fn real_eval(sid: &[u8], base: &Base, msg: &[u8], init_seed: &[u8]) -> (Result<(
     let ro = ReceiverOutput::new(base.cb, keys);
     let out: PPRFOutput = bytemuck::pod_read_unaligned(msg);
     let mut seed: ReceiverOTSeed = bytemuck::pod_read_unaligned(init_seed);
+    crate::util::note_case(format!("eval_pprf sid={} choice_bits={} receiver_keys={} msg_sha256={}", hx(sid), hx(&base.cb), hx(&base.rk_bytes()),
+        hx(&<sha2::Sha256 as sha2::Digest>::digest(msg))));
     let r = eval_pprf(sid, &ro, &out, &mut seed).map_err(|e| e.to_string());
     (r, bytemuck::bytes_of(&seed).to_vec())
 }
